@@ -189,12 +189,14 @@ CP_KINDS = {
     "array": lambda vsc: {"v": vsc.bin_array([], (0, 2))},                             # 3 bins {0},{1},{2}
     "coll": lambda vsc: {"p": vsc.bin_array([2], (0, 3)), "q": vsc.bin(3)},            # {0,1},{2,3},{3}: overlapping bins
     "sparse": lambda vsc: {"a": vsc.bin(1), "b": vsc.bin_array([], 2, 3)},             # {1},{2},{3}; 0 misses
+    "wild": lambda vsc: {"w0": vsc.wildcard_bin("0b0x"), "w1": vsc.wildcard_bin((3, 3))},  # {0,1},{3}; 2 misses
 }
 CP_SETS = {
     "singles": [{0, 1}, {2, 3}],
     "array": [{0}, {1}, {2}],
     "coll": [{0, 1}, {2, 3}, {3}],
     "sparse": [{1}, {2}, {3}],
+    "wild": [{0, 1}, {3}],
 }
 
 
